@@ -135,6 +135,19 @@ func extItem(sb *strings.Builder, repo string, it Item, pc *pkgConsts, emitConst
 		default:
 			die("%s in %s: statement %q is not if/assignment/return (shape not understood)", it.Func, it.File, it.Stmt)
 		}
+		if it.Callee != "" { // argument of a call nested anywhere in the selected statement
+			var calls []*ast.CallExpr
+			ast.Inspect(hits[0], func(n ast.Node) bool {
+				if ce, ok := n.(*ast.CallExpr); ok && show(ce.Fun) == it.Callee {
+					calls = append(calls, ce)
+				}
+				return true
+			})
+			if len(calls) != 1 || it.Arg < 0 || it.Arg >= len(calls[0].Args) {
+				die("%s in %s: statement %q contains %d calls of %s with argument %d (shape not understood)", it.Func, it.File, it.Stmt, len(calls), it.Callee, it.Arg)
+			}
+			e = calls[0].Args[it.Arg]
+		}
 		t := &tr{it: it, pc: pc, used: map[string]bool{}, bools: map[string]bool{}, locals: map[string]bool{}}
 		for _, b := range it.Bools {
 			t.bools[b] = true
